@@ -177,3 +177,14 @@ Theorem C09_conn_loss_step : forall ch a cs ch' obs,
     out = negb (is_nil (filter (fun x => at_server x =? a) (ch_inflight ch))).
 Proof. exact connlost_shape. Qed.
 Print Assumptions C09_conn_loss_step.
+
+(* "a fresh attempt goes to a server with the fewest consecutive failures" also holds for the
+   TCP attempt that follows a truncated UDP answer: it is a fresh selection on the table as it
+   is when the TC answer arrives - not pinned to the server that sent the TC answer, which may
+   have been demoted by another query in the meantime.  (Histories with EvTruncated are also
+   covered by C09_trace_accepted / C09_attempts_sent / C09_conn_loss_demotes.) *)
+Theorem C09_tc_retry_fresh : forall ch label c ch' obs,
+  wf (ch_servers ch) -> step ch (EvTruncated label c) = Ok (ch', obs) ->
+  forall l a, In (OTx l a false) obs -> l = label /\ fresh_ok (ch_rotate ch) (ch_servers ch) a.
+Proof. exact truncated_fresh. Qed.
+Print Assumptions C09_tc_retry_fresh.
